@@ -19,6 +19,7 @@ type G struct {
 	run     *Run
 	name    string
 	lib     bool // created by library code
+	lazy    bool // runs only when nobody else can (bound "lazy:<entry substring>")
 	resume  chan struct{}
 	op      *Op
 	done    bool
@@ -108,6 +109,13 @@ func (g *G) spawn(cl *Closure, args []Value, fr *Frame, pos token.Pos) *G {
 
 func (r *Run) newG(name string, lib bool) *G {
 	g := &G{id: r.nextGID, run: r, name: name, lib: lib, resume: make(chan struct{}, 1), entry: name}
+	for k, v := range r.B.Params {
+		// bound "lazy:<substring>": goroutines whose entry function matches run only when nobody
+		// else can (a lagging worker), at no cost in deviations
+		if v == 1 && strings.HasPrefix(k, "lazy:") && strings.Contains(name, k[5:]) {
+			g.lazy = true
+		}
+	}
 	r.nextGID++
 	r.gs = append(r.gs, g)
 	return g
@@ -256,6 +264,20 @@ func (r *Run) pickNext(cur *G) *G {
 				r.runq = append(append([]*G{cur}, r.runq[:i]...), r.runq[i+1:]...)
 				break
 			}
+		}
+	}
+	// lazy goroutines go behind everybody else (stable)
+	if len(r.runq) > 1 {
+		var front, back []*G
+		for _, x := range r.runq {
+			if x.lazy {
+				back = append(back, x)
+			} else {
+				front = append(front, x)
+			}
+		}
+		if len(front) > 0 && len(back) > 0 {
+			r.runq = append(front, back...)
 		}
 	}
 	evs := r.env.optionalEvents(r)
